@@ -107,6 +107,12 @@ class NoneV(Val):
         return "None"
 
 
+class _Pre:
+    """an index expression that was already evaluated"""
+    def __init__(self, value):
+        self.value = value
+
+
 class SliceV(Val):
     """a slice object built with slice(lo, hi)"""
     def __init__(self, lo=None, hi=None):
@@ -1162,6 +1168,13 @@ class Interp:
             return Top("subscript of " + type(base).__name__)
         # ---- array indexing
         parts = sl.elts if isinstance(sl, ast.Tuple) else [sl]
+        if len(parts) == 1 and not isinstance(parts[0], (ast.Slice, ast.Constant)):
+            # an index that evaluates to a tuple of index arrays (np.ix_): each item indexes one axis
+            pre = self.eval(parts[0], fr)
+            if isinstance(pre, Tup) and pre.items and all(isinstance(x, Arr) for x in pre.items):
+                parts = [_Pre(x) for x in pre.items]
+            else:
+                parts = [_Pre(pre)]
         axes = list(base.axes)
         out = []
         pos = 0
@@ -1213,7 +1226,7 @@ class Interp:
                         out.append(ax)
                 pos += 1
                 continue
-            idx = self.eval(p, fr)
+            idx = p.value if isinstance(p, _Pre) else self.eval(p, fr)
             if isinstance(idx, SliceV):
                 for b_ in (idx.lo, idx.hi):
                     if isinstance(b_, Num):
